@@ -221,6 +221,16 @@ def strcat(a, b):
     expression gives one key."""
     if b[0] == 'strcat':
         return strcat(strcat(a, b[1]), b[2])
+
+    def is_str(k):
+        return k[0] == 'const' and isinstance(k[1], str)
+    if is_str(a) and is_str(b):
+        return ('const', a[1] + b[1])       # 'ab' 'cd' == 'abcd'
+    if is_str(b) and a[0] == 'strcat' and is_str(a[2]):
+        return strcat(a[1], ('const', a[2][1] + b[1]))
+    if is_str(a) and a[1] == '':
+        return b if b[0] in ('strcat', 'const', 'fmt', 'fstr') else (
+            'strcat', a, b)
     return ('strcat', a, b)
 
 
